@@ -152,6 +152,11 @@ def conds_c13(tier):
     cnames = ["chain_src_s_u_s", "dep_edge"] if tier == "quick" else [s.name for s in cat]
     for nm in cnames:
         cs.append(xhrun.Cond(MOD, "c13_copy", _shape_env(by[nm]), timeout=400, label=f"c13_copy_{nm}"))
+    # F. a plan returned by a dry run is a caller's plan too: running it (C14's two-world harness) must leave it unchanged
+    for nm in (("chain_sss", "fork_unstored_mid") if tier == "quick" else ("chain_sss", "fork_unstored_mid", "dep_edge", "out_unstored")):
+        s_ = by[nm]
+        for sp in _splits(s_):
+            cs.append(xhrun.Cond(MOD, "c14_dry", _senv(s_, sp, XH_OUT="shape", XH_TP="0"), timeout=300, label=f"c13_dryplan_unchanged_{nm}{_sfx(sp)}"))
     return cs, info
 
 
